@@ -406,7 +406,9 @@ MANIFEST = {
                   "run, API run via cminx.document with fresh Settings, Documenter run, and companion run in a persistent second "
                   "interpreter with PYTHONHASHSEED=98765; each step picks an absolute location, cwd, input spelling and listing "
                   "key.  After every step every generated file of every world must be byte-identical to the first one produced for "
-                  "that (world, entry point, relative path).",
+                  "that (world, entry point, relative path).  Steps may reuse the output directory as the previous step left it, may "
+                  "document several lone files in one call, may meet byte-identical modules, and may suffer a transient listing "
+                  "failure (then they either fail loudly or produce the same files as ever).",
     "level_note": "trusted: workers run under PYTHONHASHSEED 0 and 4242, the companion under 98765; API pages are compared among "
                   "themselves (dataclass defaults differ from the YAML defaults)",
 }
